@@ -270,7 +270,7 @@ const char** iwpool_copy_cstring_array(const char **v, struct iwpool *pool) {
       for ( ; *v; ++wv, ++v) {
         *wv = iwpool_strdup2(pool, *v);
       }
-      *(++wv) = 0;
+      *wv = 0;
     }
     return ret;
   } else {
